@@ -1254,7 +1254,7 @@ def _refs_jobs(ctx, thorough):
             for b in ops_for(init, "6"):
                 combos.append((init, a, b))
     rng.shuffle(combos)
-    n = len(combos) if thorough else ctx.budget(45, mult=1)
+    n = len(combos) if thorough else ctx.budget(36, mult=1)
     for init, a, b in combos[:n]:
         jobs.append(("pairs.matrix", "refs", {"init": init, "actors": [[a], [b]]}, {"dfs": 2, "max": 1500}))
     # 3. symbolic refs: HEAD re-pointed while others update through it (3 actors)
@@ -1285,14 +1285,14 @@ def _refs_jobs(ctx, thorough):
             jobs.append(("lockedref", "refs", {"init": init, "actors": acts}, {"dfs": 2, "max": 600}))
     # 4. triples: random op triples, one pre-emption exhaustively + random schedules beyond
     inits = [i for k, i in INITS.items() if k != "absent-pf"]
-    for _ in range(ctx.budget(10)):
+    for _ in range(ctx.budget(8, mult=12)):
         init = rng.choice(inits)
         t = [[rng.choice(ops_for(init, w))] for w in ("5", "6", "7")]
         jobs.append(("triples.random", "refs", {"init": init, "actors": t}, {"dfs": 1, "max": 500}))
         jobs.append(("triples.random", "refs", {"init": init, "actors": t},
                      {"random": ctx.budget(60), "seed": rng.randrange(1 << 30)}))
     # 5. beyond two pre-emptions: random schedules for pairs
-    for _ in range(ctx.budget(20)):
+    for _ in range(ctx.budget(15, mult=13)):
         init = rng.choice(inits)
         a, b = rng.choice(ops_for(init, "5")), rng.choice(ops_for(init, "6"))
         jobs.append(("pairs.random", "refs", {"init": init, "actors": [[a], [b]]},
